@@ -505,6 +505,32 @@ func c04Gen(tier string, rng *rand.Rand) []mCase {
 			c.expect, c.ref, c.sigHint = "equal", clean, "unknown-fields"
 			cs = append(cs, c)
 		}
+		// one unknown field of each wire type as the very last thing on the wire (its payload ends exactly at the end
+		// of the input), under the first free tag after the last member present: a later absent optional member makes
+		// the reader skip it
+		{
+			tag := 0
+			if len(b.spans) > 0 {
+				tag = b.spans[len(b.spans)-1].Tag + 1
+			}
+			for tag < 256 && known[tag] {
+				tag++
+			}
+			if tag < 256 {
+				tys := []byte{0, 1, 2, 3, 4, 5, 6, 7, 8, 9, 10, 12, 13}
+				for _, k := range rng.Perm(len(tys))[:5] {
+					f := randFieldOf(rng, tys[k], tag, 2)
+					c := mk("extras-tail", fmt.Sprintf("unknown field of wire type %d at tag %d ending the input", tys[k], tag), append(append([]byte(nil), b.bytes...), f...))
+					c.expect, c.ref, c.sigHint = "equal", clean, "unknown-fields"
+					cs = append(cs, c)
+				}
+				// the SimpleList form always (non-empty payload)
+				f := append(append(mkHead(13, tag), mkHead(0, 0)...), append(mkCount(3), 1, 2, 3)...)
+				c := mk("extras-tail", fmt.Sprintf("unknown byte vector at tag %d ending the input", tag), append(append([]byte(nil), b.bytes...), f...))
+				c.expect, c.ref, c.sigHint = "equal", clean, "unknown-fields"
+				cs = append(cs, c)
+			}
+		}
 		// extras inside nested struct members
 		for _, s := range b.spans {
 			ft, _, ok := fieldTypeByTag(b.e.typ, s.Tag)
